@@ -588,33 +588,65 @@ def view05(c):
     return out
 
 
-def first_diff(a, b, path=""):
-    """path of the first difference between two JSON values (type-aware: True != 1), or None"""
+def first_diff_path(a, b, path=()):
+    """first difference between two JSON values as a tuple of keys / indices (type-aware: True != 1),
+    or None when equal"""
     if type(a) is not type(b):
-        return path or "."
+        return path
     if isinstance(a, dict):
-        for k in sorted(set(a) | set(b)):
+        for k in sorted(set(a) | set(b), key=str):
             if k not in a or k not in b:
-                return path + "." + k
-            r = first_diff(a[k], b[k], path + "." + k)
-            if r:
+                return path + (k,)
+            r = first_diff_path(a[k], b[k], path + (k,))
+            if r is not None:
                 return r
         return None
     if isinstance(a, list):
         if len(a) != len(b):
-            return path + ".#len"
+            return path + ("#len",)
         for i, (x, y) in enumerate(zip(a, b)):
-            r = first_diff(x, y, path + "[%d]" % i)
-            if r:
+            r = first_diff_path(x, y, path + (i,))
+            if r is not None:
                 return r
         return None
-    return None if a == b else (path or ".")
+    return None if a == b else path
+
+
+def path_str(p):
+    return "".join("[%d]" % x if isinstance(x, int) else "." + str(x) for x in p) or "."
+
+
+def first_diff(a, b):
+    r = first_diff_path(a, b)
+    return None if r is None else path_str(r)
 
 
 def kind_of_path(p):
     """path with indices removed: a stable name for 'what differs'"""
     import re
     return re.sub(r"\[\d+\]", "", p).strip(".") or "root"
+
+
+def first_diff03(a, b):
+    """for view03 values: (kind, path string); the kind drops indices and the element NAMES that key
+    the dictionaries (library, definition, instance, net)"""
+    r = first_diff_path(a, b)
+    if r is None:
+        return None
+    out = []
+    skip = 0
+    for x in r:
+        if skip:
+            skip -= 1
+            continue
+        if isinstance(x, int):
+            continue
+        out.append(str(x))
+        if x == "libraries":
+            skip = 2
+        elif x in ("instances", "nets"):
+            skip = 1
+    return ".".join(out) or "root", path_str(r)
 
 
 # ----------------------------------------------------------------------------------------------
@@ -771,3 +803,380 @@ def shrink(d, fails, max_steps=400):
 
 def size_of(d):
     return len(json.dumps(d))
+
+
+# ==============================================================================================
+# C03: recipes (canon-format netlists) for API-built netlists
+# ==============================================================================================
+# adversarial but C17-neutral alphabet: no '-' (C17 defect 15), no '"', no newline, no glob chars
+NAMECH = LET + LET.upper() + "0123456789" + "__$./[]<>(): +=%&~^|{}@!#,;'`\\"
+
+
+def gen_name03(rng, used_lower, kind="x", bus=False, scalar_net=False):
+    """a sibling name: non-empty printable ASCII, case-insensitively distinct from `used_lower`
+    (case-only collisions are C17's sub-domain), outside the pinned / triggered sub-domains."""
+    while True:
+        r = rng.random()
+        if r < 0.45:
+            s = rng.choice(LET + LET.upper()) + "".join(rng.choice(IDCH) for _ in range(rng.randint(0, 7)))
+        elif r < 0.6:
+            s = rng.choice(["_", "$", "0", "7", ".", "["]) + "".join(rng.choice(IDCH) for _ in range(rng.randint(1, 5)))
+        elif r < 0.75:
+            base = rng.choice(LET) + "".join(rng.choice(IDCH) for _ in range(rng.randint(0, 4)))
+            s = base + rng.choice(["[0]", "[12]", "_3_", ".q", "/x", "<1>", "$", "(", ")", " z", "_sdn_1_", "[1:0]", "]"])
+        else:
+            s = "".join(rng.choice(NAMECH) for _ in range(rng.randint(1, 9)))
+        if not s or s[0] == "\\":
+            continue
+        if s.lower() in used_lower:
+            continue
+        if scalar_net and (name_is_indexed(s) or s.endswith("[")):
+            continue
+        if bus and s.endswith("["):
+            pass        # bit names are  s[i]  : fine
+        if bus and (not s[0].isalnum()) and s[-1].isalnum():
+            continue    # identifier '&_…' not ending in '_' : sub-domain of edif.reader.amp_underscore_bus
+        if kind == "net" and s.endswith("[") and not bus:
+            continue
+        used_lower.add(s.lower())
+        return s
+
+
+def gen_props03(rng):
+    out = []
+    ui = set()
+    for _ in range(rng.randint(1, 3)):
+        p = {"identifier": gen_ident(rng, ui)}
+        if rng.random() < 0.3:
+            p["original_identifier"] = p["identifier"] + rng.choice(["$", ".x", "[0]", " y"])
+        t = rng.choice("siib")
+        p["value"] = (gen_string(rng).replace("\t", " ") if t == "s" else
+                      rng.choice([0, 1, 5, -7, 2 ** 33, rng.randint(-99, 9999)]) if t == "i" else (rng.random() < 0.5))
+        out.append(p)
+    return out
+
+
+def gen_recipe(rng, size="small", trigger=None):
+    """trigger: None | undefined_dir | one_pin_array | bitlike_scalar | amp_bus | glob | bracket_tail"""
+    S = {"small": dict(libs=(1, 2), leaf=(1, 2), mid=(1, 2), kids=3, ports=3, width=3),
+         "medium": dict(libs=(1, 3), leaf=(1, 4), mid=(1, 5), kids=5, ports=4, width=4),
+         "large": dict(libs=(2, 4), leaf=(2, 6), mid=(3, 9), kids=8, ports=6, width=8)}[size]
+    nlibs = rng.randint(*S["libs"])
+    used_l = set()
+    libs = [{"name": gen_name03(rng, used_l), "data": {}, "definitions": [], "_used": set()} for _ in range(nlibs)]
+    order = []      # (lib index, def dict) in creation (dependency) order
+
+    def mkports(D, lo):
+        up = set()
+        for _ in range(rng.randint(lo, S["ports"])):
+            w = 1 if rng.random() < 0.5 else rng.randint(2, S["width"])
+            D["ports"].append({"name": gen_name03(rng, up), "dir": rng.choice(["IN", "OUT", "INOUT"]), "width": w,
+                               "scalar": w == 1, "lower": (rng.randint(0, 7) if w > 1 and rng.random() < 0.4 else 0),
+                               "downto": rng.random() < 0.8,
+                               "data": ({"pk": rng.choice([1, "v", True])} if rng.random() < 0.15 else {})})
+
+    def newdef(li, leaf):
+        L = libs[li]
+        D = {"name": gen_name03(rng, L["_used"]), "data": ({"dk": rng.choice([3, "x", [1, 2]])} if rng.random() < 0.2 else {}),
+             "ports": [], "cables": [], "instances": []}
+        mkports(D, 1 if leaf else 0)
+        return D
+    for _ in range(rng.randint(*S["leaf"])):
+        li = rng.randrange(nlibs)
+        order.append((li, newdef(li, True)))
+    for _ in range(rng.randint(*S["mid"])):
+        li = rng.randrange(nlibs)
+        D = newdef(li, False)
+        cands = [k for k, (l2, _) in enumerate(order) if l2 <= li]
+        ui = set()
+        if cands:
+            for _ in range(rng.randint(0, S["kids"])):
+                k = rng.choice(cands)
+                data = {}
+                if rng.random() < 0.35:
+                    data["EDIF.properties"] = gen_props03(rng)
+                if rng.random() < 0.15:
+                    data["ik"] = rng.choice([7, "s", False])
+                D["instances"].append({"name": gen_name03(rng, ui), "ref": k, "data": data})
+        order.append((li, D))
+    # nets
+    for li, D in order:
+        free = []
+        for pi, p in enumerate(D["ports"]):
+            free += [["p", pi, b] for b in range(p["width"])]
+        for ii, inst in enumerate(D["instances"]):
+            R = order[inst["ref"]][1]
+            for pi, p in enumerate(R["ports"]):
+                free += [["i", ii, pi, b] for b in range(p["width"])]
+        rng.shuffle(free)
+        free = [x for x in free if rng.random() < 0.8]
+        uc = set()
+        ncab = rng.randint(0, max(1, len(free) // 2 + 1)) if (D["instances"] or rng.random() < 0.3) else 0
+        for _ in range(ncab):
+            w = 1 if rng.random() < 0.55 else rng.randint(2, S["width"])
+            arr = w > 1 or rng.random() < 0.15
+            wires = []
+            for _ in range(w):
+                k = rng.choice([0, 1, 2, 2, 3])
+                wires.append([free.pop() for _ in range(min(k, len(free)))])
+            D["cables"].append({"name": gen_name03(rng, uc, kind="net", bus=arr, scalar_net=not arr), "scalar": not arr,
+                                "lower": (rng.choice([0, 0, 1, 3, 31]) if arr else 0), "downto": rng.random() < 0.8,
+                                "data": {}, "wires": wires})
+        apply_trigger03(rng, D, uc, trigger)
+    # distribute to libraries, then shuffle declaration order everywhere
+    pos = {}
+    for k, (li, D) in enumerate(order):
+        libs[li]["definitions"].append((k, D))
+    perm = list(range(nlibs))
+    rng.shuffle(perm)
+    out_libs = []
+    for new_li, old_li in enumerate(perm):
+        L = libs[old_li]
+        ds = L["definitions"]
+        rng.shuffle(ds)
+        for di, (k, D) in enumerate(ds):
+            pos[k] = [new_li, di]
+        out_libs.append({"name": L["name"], "data": L["data"], "definitions": [D for _, D in ds]})
+    for _, D in order:
+        for inst in D["instances"]:
+            inst["ref"] = pos[inst["ref"]]
+    topk = len(order) - 1 if rng.random() < 0.8 else rng.randrange(len(order))
+    return {"name": gen_name03(rng, set()), "data": ({"EDIF.status.written.program": "gen03"} if rng.random() < 0.2 else {}),
+            "libraries": out_libs,
+            "top": {"name": gen_name03(rng, set()), "ref": pos[topk], "data": {}, "child_of": None}}
+
+
+def apply_trigger03(rng, D, uc, trigger):
+    if trigger == "undefined_dir" and D["ports"]:
+        rng.choice(D["ports"])["dir"] = "UNDEFINED"
+    elif trigger == "one_pin_array":
+        for p in D["ports"]:
+            if p["width"] == 1:
+                p["scalar"] = False
+                break
+    elif trigger == "bitlike_scalar":
+        n = "w[%d]" % rng.randint(0, 9)
+        if n not in uc:
+            uc.add(n)
+            D["cables"].append({"name": n, "scalar": True, "lower": 0, "downto": True, "data": {}, "wires": [[]]})
+    elif trigger == "amp_bus":
+        n = "_" + rng.choice(LET) + rng.choice(LET)
+        if n not in uc:
+            uc.add(n)
+            D["cables"].append({"name": n, "scalar": False, "lower": 0, "downto": True, "data": {}, "wires": [[], []]})
+    elif trigger == "glob":
+        a = "g" + rng.choice(LET)
+        if a not in uc and (a + "*") not in uc:
+            uc.update([a, a + "*"])
+            D["cables"].append({"name": a, "scalar": False, "lower": 0, "downto": True, "data": {}, "wires": [[], []]})
+            D["cables"].append({"name": a + "*", "scalar": False, "lower": 0, "downto": True, "data": {}, "wires": [[], []]})
+    elif trigger == "bracket_tail":
+        n = "t" + rng.choice(LET) + "["
+        if n not in uc:
+            uc.add(n)
+            D["cables"].append({"name": n, "scalar": True, "lower": 0, "downto": True, "data": {}, "wires": [[]]})
+
+
+def view03(c):
+    """C03 view of a canon netlist: exactly the attributes the statement lists, keyed by name.
+    Port base index / downto are NOT in it (decision 4); cable base index is."""
+    libname = [L["name"] for L in c["libraries"]]
+    defname = [[D["name"] for D in L["definitions"]] for L in c["libraries"]]
+
+    def ref(r):
+        if r is None:
+            return None
+        if isinstance(r[0], str):
+            return r
+        return [libname[r[0]], defname[r[0]][r[1]]]
+    out = {"name": c["name"], "libraries": {}, "top": None}
+    for L in c["libraries"]:
+        defs = {}
+        for D in L["definitions"]:
+            pn = [p["name"] for p in D["ports"]]
+            kn = [k["name"] for k in D["instances"]]
+            kref = [k["ref"] for k in D["instances"]]
+
+            def pin(x):
+                if x[0] == "p":
+                    return ["p", pn[x[1]], x[2]]
+                if x[0] == "i":
+                    r = kref[x[1]]
+                    rp = c["libraries"][r[0]]["definitions"][r[1]]["ports"][x[2]]["name"]
+                    return ["i", kn[x[1]], rp, x[3]]
+                return x
+            defs[D["name"]] = {
+                "ports": [[p["name"], p["dir"], p["width"], not p["scalar"]] for p in D["ports"]],
+                "instances": {k["name"]: {"ref": ref(k["ref"]), "props": k["data"].get("EDIF.properties") or []}
+                              for k in D["instances"]},
+                "nets": {cb["name"]: {"width": len(cb["wires"]), "lower": cb["lower"],
+                                      "wires": [[pin(x) for x in w] for w in cb["wires"]]} for cb in D["cables"]},
+                "#": [len(D["ports"]), len(D["instances"]), len(D["cables"])]}
+        out["libraries"][L["name"]] = defs
+    out["#libs"] = [len(c["libraries"])] + [len(L["definitions"]) for L in sorted(c["libraries"], key=lambda x: str(x["name"]))]
+    t = c["top"]
+    if t is not None:
+        out["top"] = {"name": t["name"], "ref": ref(t["ref"])}
+    return out
+
+
+def shrink03_candidates(c):
+    """smaller canon recipes (one step): drop cable / wire pin / instance / port / definition / props"""
+    def clone():
+        return copy.deepcopy(c)
+    for li, L in enumerate(c["libraries"]):
+        for di, D in enumerate(L["definitions"]):
+            for ci in range(len(D["cables"])):
+                e = clone()
+                del e["libraries"][li]["definitions"][di]["cables"][ci]
+                yield e
+            for ci, cb in enumerate(D["cables"]):
+                if len(cb["wires"]) > 1:
+                    e = clone()
+                    del e["libraries"][li]["definitions"][di]["cables"][ci]["wires"][-1]
+                    yield e
+                for wi, w in enumerate(cb["wires"]):
+                    if w:
+                        e = clone()
+                        e["libraries"][li]["definitions"][di]["cables"][ci]["wires"][wi] = w[:-1]
+                        yield e
+            used = {x[1] for cb in D["cables"] for w in cb["wires"] for x in w if x[0] == "i"}
+            for ii in range(len(D["instances"])):
+                if ii in used:
+                    continue
+                e = clone()
+                DD = e["libraries"][li]["definitions"][di]
+                del DD["instances"][ii]
+                for cb in DD["cables"]:
+                    for w in cb["wires"]:
+                        for x in w:
+                            if x[0] == "i" and x[1] > ii:
+                                x[1] -= 1
+                yield e
+            for ii, k in enumerate(D["instances"]):
+                if k["data"]:
+                    e = clone()
+                    e["libraries"][li]["definitions"][di]["instances"][ii]["data"] = {}
+                    yield e
+    refd = set()
+    for L in c["libraries"]:
+        for D in L["definitions"]:
+            for k in D["instances"]:
+                if k["ref"] is not None:
+                    refd.add(tuple(k["ref"]))
+    if c["top"] is not None and c["top"]["ref"] is not None:
+        refd.add(tuple(c["top"]["ref"]))
+    for li, L in enumerate(c["libraries"]):
+        for di in range(len(L["definitions"])):
+            if (li, di) in refd:
+                continue
+            e = clone()
+            del e["libraries"][li]["definitions"][di]
+
+            def fix(r):
+                if r is not None and r[0] == li and r[1] > di:
+                    r[1] -= 1
+            for L2 in e["libraries"]:
+                for D2 in L2["definitions"]:
+                    for k in D2["instances"]:
+                        fix(k["ref"])
+            fix(e["top"]["ref"])
+            yield e
+    for li, L in enumerate(c["libraries"]):
+        if L["definitions"]:
+            continue
+        e = clone()
+        del e["libraries"][li]
+
+        def fixl(r):
+            if r is not None and r[0] > li:
+                r[0] -= 1
+        for L2 in e["libraries"]:
+            for D2 in L2["definitions"]:
+                for k in D2["instances"]:
+                    fixl(k["ref"])
+        fixl(e["top"]["ref"])
+        yield e
+    # unused ports
+    for li, L in enumerate(c["libraries"]):
+        for di, D in enumerate(L["definitions"]):
+            for pi in range(len(D["ports"])):
+                usedp = any(x[0] == "p" and x[1] == pi for cb in D["cables"] for w in cb["wires"] for x in w)
+                for L2 in c["libraries"]:
+                    for D2 in L2["definitions"]:
+                        for ii, k in enumerate(D2["instances"]):
+                            if k["ref"] == [li, di] and any(x[0] == "i" and x[1] == ii and x[2] == pi
+                                                            for cb in D2["cables"] for w in cb["wires"] for x in w):
+                                usedp = True
+                if usedp:
+                    continue
+                e = clone()
+                DD = e["libraries"][li]["definitions"][di]
+                del DD["ports"][pi]
+                for cb in DD["cables"]:
+                    for w in cb["wires"]:
+                        for x in w:
+                            if x[0] == "p" and x[1] > pi:
+                                x[1] -= 1
+                for L2 in e["libraries"]:
+                    for D2 in L2["definitions"]:
+                        for ii, k in enumerate(D2["instances"]):
+                            if k["ref"] == [li, di]:
+                                for cb in D2["cables"]:
+                                    for w in cb["wires"]:
+                                        for x in w:
+                                            if x[0] == "i" and x[1] == ii and x[2] > pi:
+                                                x[2] -= 1
+                yield e
+
+
+def shrink03(c, fails, max_steps=300):
+    steps = 0
+    improved = True
+    while improved and steps < max_steps:
+        improved = False
+        for e in shrink03_candidates(c):
+            steps += 1
+            if steps > max_steps:
+                break
+            try:
+                if fails(e):
+                    c = e
+                    improved = True
+                    break
+            except Exception:
+                continue
+    return c
+
+
+def features03(c):
+    defs = [D for L in c["libraries"] for D in L["definitions"]]
+    return {"libs": len(c["libraries"]), "defs": len(defs),
+            "insts": sum(len(D["instances"]) for D in defs),
+            "buses": sum(1 for D in defs for cb in D["cables"] if len(cb["wires"]) > 1),
+            "busports": sum(1 for D in defs for p in D["ports"] if p["width"] > 1),
+            "nontrivial": any(D["instances"] for D in defs) or any(len(cb["wires"]) > 1 for D in defs for cb in D["cables"])}
+
+
+def sanitize_for_c03(d, rng):
+    """abstract design -> one whose parsed netlist is outside the sub-domains of the open WRITER
+    findings (every port has a direction, no one-pin array port)"""
+    d = copy.deepcopy(d)
+    libs = [x for x in d["body"] if x["k"] == "lib"]
+    fix = set()
+    for li, L in enumerate(libs):
+        for ci, c in enumerate(L["cells"]):
+            for pi, p in enumerate(c["ports"]):
+                if p["dir"] is None:
+                    p["dir"] = rng.choice(["INPUT", "OUTPUT", "INOUT"])
+                if p["width"] == 1:
+                    p["width"] = None
+                    fix.add((li, ci, pi))
+    for li, L in enumerate(libs):
+        for ci, c in enumerate(L["cells"]):
+            for n in c["nets"]:
+                for x in n["pins"]:
+                    key = (li, ci, x["port"]) if x["inst"] is None else tuple(c["insts"][x["inst"]]["ref"]) + (x["port"],)
+                    if key in fix:
+                        x["bit"] = None
+    return d
